@@ -293,7 +293,7 @@ func (o *poolObs) regenerate(s *Sim, blk bookkeeping.Block, parts []basics.Addre
 }
 
 func (o *poolObs) TamperBlock(s *Sim, g *Gen, blk bookkeeping.Block) {
-	if s.viol != nil || s.harness != "" {
+	if s.viol != nil || s.harness != "" || !o.c20 {
 		return
 	}
 	who := "another node's block"
